@@ -13,7 +13,7 @@
 (***************************************************************************)
 EXTENDS Resample, SubTissue
 
-CONSTANTS KS, NES
+CONSTANTS KS, NES, MaxCells      \* MaxCells bounds the size of the cell subsets (deep k only)
 VARIABLES i, sub, k, m, ne, rse, res, ver, res2, ver2
 vars == <<i, sub, k, m, ne, rse, res, ver, res2, ver2>>
 
@@ -44,7 +44,7 @@ Pick == /\ i <= Base.nc
         /\ \/ sub' = sub \cup {i}
            \/ sub' = sub
         /\ i' = i + 1 /\ UNCHANGED <<k, m, ne, rse, res, ver, res2, ver2>>
-ChooseK == /\ i = Base.nc + 1 /\ k = -1 /\ sub # {}
+ChooseK == /\ i = Base.nc + 1 /\ k = -1 /\ sub # {} /\ Cardinality(sub) <= MaxCells
            /\ k' \in KS /\ UNCHANGED <<i, sub, m, ne, rse, res, ver, res2, ver2>>
 Build == /\ k >= 0 /\ m = None
          /\ m' = ModelMesh(sub, k)
